@@ -25,8 +25,8 @@ Print Assumptions C07_clean_history.
    in a chunk writer's buffer is dropped *)
 Theorem C07_clean_nosync_refuted : forall fx, fx_sync fx = false -> ~ clean_statement fx.
 Proof.
-  intros [fs fa fp fn fd fg fr] F H. cbn in F. subst fs.
-  specialize (H (mkMem [O] [(O, [5])] [] [] [(O, O)] []) (mkDisk (Some (Whole [O])) None None None [] 1%nat [])).
+  intros [fs fa fp fn fd fg fr fh] F H. cbn in F. subst fs.
+  specialize (H (mkMem [O] [(O, [5])] [] [] [(O, O)] [] []) (mkDisk (Some (Whole [O])) None None None [] 1%nat [])).
   destruct H as (m' & d' & S & _ & _ & E).
   - split; [reflexivity|]. split; [intros p []|]. split.
     + intros p Hp. cbn in Hp. destruct p; [left; reflexivity|congruence].
@@ -56,7 +56,7 @@ Print Assumptions C07_crash_tindex.
    missing, the index loads empty, a journal with data has no record, Init fails (tindex.bak is never read) *)
 Theorem C07_crash_tindex_inplace_refuted : forall fx, fx_atomic fx = false -> ~ tindex_crash_statement fx.
 Proof.
-  intros [fs fa fp fn fd fg fr] F H. cbn in F. subst fa.
+  intros [fs fa fp fn fd fg fr fh] F H. cbn in F. subst fa.
   specialize (H (mkDisk (Some (Whole [O])) None None None [(O, (O, [5]))] 1%nat []) [O] [O; 1%nat]
                 (mkDisk None (Some (Whole [O])) None None [(O, (O, [5]))] 1%nat []) eq_refl).
   destruct H as [H|H].
@@ -113,7 +113,7 @@ Print Assumptions C07_crash_pipes.
 (* false when pipes.dat is written by Shutdown only: one CREATE PIPE, SIGKILL *)
 Theorem C07_crash_pipes_shutdown_only_refuted : forall fx, fx_pipes fx = false -> ~ pipes_crash_statement fx.
 Proof.
-  intros [fs fa fp fn fd fg fr] F H. cbn in F. subst fp. specialize (H empty_mem (mkDisk None None None (Some (Whole [])) [] O []) [SPipe O] eq_refl).
+  intros [fs fa fp fn fd fg fr fh] F H. cbn in F. subst fp. specialize (H empty_mem (mkDisk None None None (Some (Whole [])) [] O []) [SPipe O] eq_refl).
   vm_compute in H. discriminate H.
 Qed.
 Print Assumptions C07_crash_pipes_shutdown_only_refuted.
@@ -127,9 +127,9 @@ Print Assumptions C07_crash_pipes_save.
 (* false for a saver that writes pipes.dat in place: the empty file *)
 Theorem C07_crash_pipes_save_inplace_refuted : forall fx, fx_pipes fx = false -> ~ pipes_save_crash_statement fx.
 Proof.
-  intros [fs fa fp fn fd fg fr] F H. cbn in F. subst fp.
+  intros [fs fa fp fn fd fg fr fh] F H. cbn in F. subst fp.
   destruct (H (mkDisk None None None (Some (Whole [O])) [] O []) [O] [O; 1%nat] _ eq_refl
-              (pcrash_torn (mkFix fs fa false fn fd fg fr) _ _ O eq_refl)) as [C|C]; vm_compute in C; discriminate C.
+              (pcrash_torn (mkFix fs fa false fn fd fg fr fh) _ _ O eq_refl)) as [C|C]; vm_compute in C; discriminate C.
 Qed.
 Print Assumptions C07_crash_pipes_save_inplace_refuted.
 
@@ -167,10 +167,10 @@ Print Assumptions C07_progress_survives_clean_restart.
 Theorem C07_progress_survives_shared_file_refuted : forall fx, fx_reg fx = false -> fx_prog fx = true ->
   ~ progress_survives_statement fx.
 Proof.
-  intros [fs fa fp fn fd fg fr] F G H. cbn in F, G. subst fr fg.
+  intros [fs fa fp fn fd fg fr fh] F G H. cbn in F, G. subst fr fg.
   pose (d := mkDisk (Some (Whole [])) None None (Some (Whole [5%nat])) [] O [(5%nat, Whole 3%nat)]).
-  pose (m := mkMem [] [] [] [5%nat] [] [(5%nat, 3%nat)]).
-  destruct (start (mkFix fs fa fp fn fd true false) (graceful (mkFix fs fa fp fn fd true false) m d)) as [[m' d']|] eqn:S.
+  pose (m := mkMem [] [] [] [5%nat] [] [(5%nat, 3%nat)] []).
+  destruct (start (mkFix fs fa fp fn fd true false fh) (graceful (mkFix fs fa fp fn fd true false fh) m d)) as [[m' d']|] eqn:S.
   - specialize (H m d 5%nat 3%nat m' d' eq_refl S).
     destruct fs, fa; vm_compute in S; injection S as <- <-; vm_compute in H; discriminate H.
   - destruct fs, fa; vm_compute in S; discriminate S.
@@ -182,8 +182,8 @@ Print Assumptions C07_progress_survives_shared_file_refuted.
    definitions" (C07_crash_pipes) is false: one catch-up of the pipe named "s" *)
 Theorem C07_crash_pipes_shared_file_refuted : forall fx, fx_reg fx = false -> ~ pipes_crash_statement fx.
 Proof.
-  intros [fs fa fp fn fd fg fr] F H. cbn in F. subst fr.
-  specialize (H (mkMem [O] [] [] [5%nat] [(O, O)] []) (mkDisk (Some (Whole [O])) None None (Some (Whole [5%nat])) [(O, (O, [7]))] 1%nat [])
+  intros [fs fa fp fn fd fg fr fh] F H. cbn in F. subst fr.
+  specialize (H (mkMem [O] [] [] [5%nat] [(O, O)] [] []) (mkDisk (Some (Whole [O])) None None (Some (Whole [5%nat])) [(O, (O, [7]))] 1%nat [])
                 [SDrain 5 0 1] eq_refl).
   destruct fa; vm_compute in H; discriminate H.
 Qed.
@@ -199,9 +199,9 @@ Print Assumptions C07_torn_progress_starts.
 (* false for a newPPipe that returns the error of loadPipeInfo: pipe.Service.Init fails, the server does not start *)
 Theorem C07_torn_progress_error_returned_refuted : forall fx, fx_prog fx = false -> ~ progress_torn_statement fx.
 Proof.
-  intros [fs fa fp fn fd fg fr] F H. cbn in F. subst fg.
+  intros [fs fa fp fn fd fg fr fh] F H. cbn in F. subst fg.
   pose (d := mkDisk (Some (Whole [])) None None None [] O [(4%nat, Whole 3%nat)]).
-  destruct (start (mkFix fs fa fp fn fd false fr) d) as [[m' d']|] eqn:S; [|destruct fa; vm_compute in S; discriminate S].
+  destruct (start (mkFix fs fa fp fn fd false fr fh) d) as [[m' d']|] eqn:S; [|destruct fa; vm_compute in S; discriminate S].
   destruct (H None d 4%nat O m' d' S) as (m1 & d1 & S1 & _). destruct fa; vm_compute in S1; discriminate S1.
 Qed.
 Print Assumptions C07_torn_progress_error_returned_refuted.
@@ -225,9 +225,9 @@ Print Assumptions C07_crash_drop.
 (* false when the record goes first: between the two effects there is a journal with data and no record: Init fails *)
 Theorem C07_crash_drop_record_first_refuted : forall fx, fx_drop fx = false -> ~ drop_crash_statement fx.
 Proof.
-  intros [fs fa fp fn fd fg fr] F H. cbn in F. subst fd.
-  specialize (H (mkMem [O] [] [] [] [(O, O)] []) (mkDisk (Some (Whole [O])) None None None [(O, (O, [5]))] 1%nat []) O
-                (tsave (mkFix fs fa fp fn false fg fr) (mkDisk (Some (Whole [O])) None None None [(O, (O, [5]))] 1%nat []) [])).
+  intros [fs fa fp fn fd fg fr fh] F H. cbn in F. subst fd.
+  specialize (H (mkMem [O] [] [] [] [(O, O)] [] []) (mkDisk (Some (Whole [O])) None None None [(O, (O, [5]))] 1%nat []) O
+                (tsave (mkFix fs fa fp fn false fg fr fh) (mkDisk (Some (Whole [O])) None None None [(O, (O, [5]))] 1%nat []) [])).
   destruct H as [H|H].
   - split; [reflexivity|]. split; [intros p Hp; cbn in Hp; destruct Hp as [<-|[]]; left; reflexivity|].
     split; [intros p Hp; exfalso; apply Hp; reflexivity|]. split; [constructor|intros p []].
@@ -251,13 +251,13 @@ Print Assumptions C07_crash_cindex.
    30,40 flushed | crash: the stale hull [10,20] makes RANGE [25:45] skip the chunk *)
 Theorem C07_crash_cindex_snapshot_kept_refuted : forall fx, fx_snap fx = false -> ~ range_after_crash_statement fx.
 Proof.
-  intros [fs fa fp fn fd fg fr] F H. cbn in F. subst fn.
+  intros [fs fa fp fn fd fg fr fh] F H. cbn in F. subst fn.
   pose (d0 := mkDisk (Some (Whole [O])) None (Some (Whole [(O, (10, 20))])) None [(O, (O, [10; 20]))] 1%nat []).
-  destruct (start (mkFix fs fa fp false fd fg fr) d0) as [[m0 d0']|] eqn:S0; [|destruct fa; vm_compute in S0; discriminate S0].
+  destruct (start (mkFix fs fa fp false fd fg fr fh) d0) as [[m0 d0']|] eqn:S0; [|destruct fa; vm_compute in S0; discriminate S0].
   assert (K0 : keys_nodup d0) by (repeat constructor; intros []).
-  pose proof (reach (mkFix fs fa fp false fd fg fr) d0 m0 d0' [SWrite O [30; 40]; SSync] K0 S0) as R.
-  set (md := run_steps (mkFix fs fa fp false fd fg fr) (m0, d0') [SWrite O [30; 40]; SSync]) in *.
-  destruct (start (mkFix fs fa fp false fd fg fr) (killed (fst md) (snd md))) as [[m' d']|] eqn:S;
+  pose proof (reach (mkFix fs fa fp false fd fg fr fh) d0 m0 d0' [SWrite O [30; 40]; SSync] K0 S0) as R.
+  set (md := run_steps (mkFix fs fa fp false fd fg fr fh) (m0, d0') [SWrite O [30; 40]; SSync]) in *.
+  destruct (start (mkFix fs fa fp false fd fg fr fh) (killed (fst md) (snd md))) as [[m' d']|] eqn:S;
     [|destruct fa; vm_compute in S0; injection S0 as <- <-; vm_compute in S; discriminate S].
   specialize (H (fst md) (snd md) R).
   assert (U : chunk_ids_unique (snd md)).
@@ -270,6 +270,38 @@ Proof.
     vm_compute in H; (assert (X : False); [apply H; [right; right; left; reflexivity|reflexivity]|destruct X]).
 Qed.
 Print Assumptions C07_crash_cindex_snapshot_kept_refuted.
+
+(* a chunk the index learnt about from a write while it already held records (info marked HullPartial: no snapshot was loaded,
+   the first request was a write, the rebuild has not run): it is reported with an unlimited range (no entry in the hull),
+   and the snapshot a graceful stop writes has no range for it either ... *)
+Theorem C07_partial_mark_saved : partial_mark_statement code_fix.
+Proof. exact (partial_mark_saved code_fix eq_refl). Qed.
+Print Assumptions C07_partial_mark_saved.
+
+(* ... so that the next start collects the range from the chunk: no flushed event is hidden from a time-range query
+   (timestamps not decreasing inside the chunk, chunk ids unique) *)
+Theorem C07_unknown_chunk_range_complete : forall fx d m' d' p, chunk_ids_unique d -> keys_nodup d -> start fx d = Some (m', d') ->
+  (forall cid evs, lookup p (d_jrnl d) = Some (cid, evs) -> lookup cid (cindex_init d) = None) ->
+  StronglySorted Z.le (events_of p (d_jrnl d')) ->
+  forall t lo hi, In t (events_of p (d_jrnl d')) -> in_range lo hi t = true ->
+  In t (range_query (hull_of p m') (events_of p (d_jrnl d')) lo hi).
+Proof.
+  intros fx d m' d' p U ND S Hs Srt t lo hi It Ir.
+  rewrite (start_unknown_chunk_hull fx d m' d' p U S Hs ND).
+  - apply range_rebuilt; assumption.
+  - intros C. rewrite C in It. destruct It.
+Qed.
+Print Assumptions C07_unknown_chunk_range_complete.
+
+(* false when the mark is not written to cindex.dat: the range of the last write is saved, and loaded, as the chunk's range *)
+Theorem C07_partial_mark_not_saved_refuted : forall fx, fx_partial fx = false -> ~ partial_mark_statement fx.
+Proof.
+  intros [fs fa fp fn fd fg fr fh] F H. cbn in F. subst fh.
+  destruct (H (mkMem [O] [] [(O, (10, 30))] [] [(O, O)] [] []) (mkDisk (Some (Whole [O])) None None None [(O, (O, [10; 20; 30]))] 1%nat [])
+              O [40] O eq_refl) as [C _].
+  vm_compute in C. discriminate C.
+Qed.
+Print Assumptions C07_partial_mark_not_saved_refuted.
 
 (* the loader trusts whatever snapshot it finds - which is why a crash must never leave one: "after a start on ANY
    directory no flushed event is hidden" is false (a directory with the hull [10,20] for a chunk holding 10,20,30,40) *)
@@ -296,19 +328,19 @@ Example C07_witnesses_reachable :
   (* write 10,20,30; flush; write 40; graceful stop; start: everything is back; without the sync 40 is gone *)
   run_sessions code_fix 1 15 25 empty_disk [mkSession [SWrite 0 [10; 20; 30]; SSync; SWrite 0 [40]] true []]
     = [OStarted [None] [] [[]]; OStarted [Some [10; 20; 30; 40]] [] [[20]]] /\
-  run_sessions (mkFix false true true true true true true) 1 15 25 empty_disk [mkSession [SWrite 0 [10; 20; 30]; SSync; SWrite 0 [40]] true []]
+  run_sessions (mkFix false true true true true true true true) 1 15 25 empty_disk [mkSession [SWrite 0 [10; 20; 30]; SSync; SWrite 0 [40]] true []]
     = [OStarted [None] [] [[]]; OStarted [Some [10; 20; 30]] [] [[20]]] /\
   (* a crash inside the tag-index save: harmless; with the in-place saver (rename window, torn write) the server refuses to start *)
   run_sessions code_fix 1 15 25 empty_disk [mkSession [SWrite 0 [10; 20; 30]; SSync] true [GTRenamed; GTTorn 0]]
     = [OStarted [None] [] [[]]; OStarted [Some [10; 20; 30]] [] [[20]]] /\
-  run_sessions (mkFix true false true true true true true) 1 15 25 empty_disk [mkSession [SWrite 0 [10; 20; 30]; SSync] true [GTRenamed]]
+  run_sessions (mkFix true false true true true true true true) 1 15 25 empty_disk [mkSession [SWrite 0 [10; 20; 30]; SSync] true [GTRenamed]]
     = [OStarted [None] [] [[]]; ORefused] /\
-  run_sessions (mkFix true false true true true true true) 1 15 25 empty_disk [mkSession [SWrite 0 [10; 20; 30]; SSync] true [GTTorn 0]]
+  run_sessions (mkFix true false true true true true true true) 1 15 25 empty_disk [mkSession [SWrite 0 [10; 20; 30]; SSync] true [GTTorn 0]]
     = [OStarted [None] [] [[]]; ORefused] /\
   (* pipe created, SIGKILL: it is there; saved at shutdown only: gone *)
   run_sessions code_fix 1 15 25 empty_disk [mkSession [SPipe 0] false []]
     = [OStarted [None] [] [[]]; OStarted [None] [0%nat] [[]]] /\
-  run_sessions (mkFix true true false true true true true) 1 15 25 empty_disk [mkSession [SPipe 0] false []]
+  run_sessions (mkFix true true false true true true true true) 1 15 25 empty_disk [mkSession [SPipe 0] false []]
     = [OStarted [None] [] [[]]; OStarted [None] [] [[]]] /\
   (* a shutdown that dies inside the pipes save (acknowledged 40 still buffered: a crash may lose it) *)
   run_sessions code_fix 1 15 25 empty_disk [mkSession [SWrite 0 [10; 20; 30]; SSync; SWrite 0 [40]; SPipe 0] false [GPTorn 1]]
@@ -329,19 +361,25 @@ Example C07_witnesses_reachable :
      mkSession [SSync; SWrite 0 [40]; SDrain 4 0 1; SSync; SWrite 0 [50]; SDrain 4 0 1] true []]
     = [OStarted [None; None] [] [[]; []]; OStarted [Some [10; 20; 30]; Some [10; 20]] [4%nat] [[20]; [20]];
        OStarted [Some [10; 20; 30; 40; 50]; Some [10; 20; 40]] [4%nat] [[20]; [20]]] /\
-  run_sessions (mkFix true true true true true false true) 2 15 25 empty_disk
+  run_sessions (mkFix true true true true true false true true) 2 15 25 empty_disk
     [mkSession [SPipe 4; SSync; SWrite 0 [10; 20]; SDrain 4 0 1; SSync; SWrite 0 [30]; SDrain 4 0 1] true [GProgTorn 4 7]]
     = [OStarted [None; None] [] [[]; []]; ORefused] /\
   (* 10,20 | clean stop | 30,40 flushed | SIGKILL: RANGE [25:45] shows them; with a snapshot that survives the crash it does not *)
   run_sessions code_fix 1 25 45 empty_disk [mkSession [SWrite 0 [10; 20]; SSync] true []; mkSession [SWrite 0 [30; 40]; SSync] false []]
     = [OStarted [None] [] [[]]; OStarted [Some [10; 20]] [] [[]]; OStarted [Some [10; 20; 30; 40]] [] [[30; 40]]] /\
-  run_sessions (mkFix true true true false true true true) 1 25 45 empty_disk [mkSession [SWrite 0 [10; 20]; SSync] true []; mkSession [SWrite 0 [30; 40]; SSync] false []]
+  run_sessions (mkFix true true true false true true true true) 1 25 45 empty_disk [mkSession [SWrite 0 [10; 20]; SSync] true []; mkSession [SWrite 0 [30; 40]; SSync] false []]
     = [OStarted [None] [] [[]]; OStarted [Some [10; 20]] [] [[]]; OStarted [Some [10; 20; 30; 40]] [] [[]]] /\
+  (* 10,20,30 | SIGKILL | start, the first request is a write of 40 (the rebuilder held), graceful stop at once | start:
+     RANGE [15:25] shows 20; when the HullPartial mark is not saved the chunk is loaded with the range [40,40] and 20 is hidden *)
+  run_sessions code_fix 1 15 25 empty_disk [mkSession [SWrite 0 [10; 20; 30]; SSync] false []; mkSession [SBlindWrite 0 [40]] true []]
+    = [OStarted [None] [] [[]]; OStarted [Some [10; 20; 30]] [] [[20]]; OStarted [Some [10; 20; 30; 40]] [] [[20]]] /\
+  run_sessions (mkFix true true true true true true true false) 1 15 25 empty_disk [mkSession [SWrite 0 [10; 20; 30]; SSync] false []; mkSession [SBlindWrite 0 [40]] true []]
+    = [OStarted [None] [] [[]]; OStarted [Some [10; 20; 30]] [] [[20]]; OStarted [Some [10; 20; 30; 40]] [] [[]]] /\
   (* a crash between the two effects of the removal of partition 1: the server starts (the partition is there, empty); with
      the record removed first it refuses *)
   run_sessions code_fix 2 15 25 empty_disk [mkSession [SWrite 0 [10; 20]; SWrite 1 [5]; SSync] true [GTOrphan 1]]
     = [OStarted [None; None] [] [[]; []]; OStarted [Some [10; 20]; Some []] [] [[20]; []]] /\
-  run_sessions (mkFix true true true true false true true) 2 15 25 empty_disk [mkSession [SWrite 0 [10; 20]; SWrite 1 [5]; SSync] true [GTOrphan 1]]
+  run_sessions (mkFix true true true true false true true true) 2 15 25 empty_disk [mkSession [SWrite 0 [10; 20]; SWrite 1 [5]; SSync] true [GTOrphan 1]]
     = [OStarted [None; None] [] [[]; []]; ORefused].
 Proof. vm_compute. repeat split. Qed.
 
